@@ -413,7 +413,7 @@ fn c07(args: &Args, report: &Report) {
         }
     }
     let shards = args.by_tier(16, 32);
-    let sessions = args.by_tier(3, 40);
+    let sessions = args.by_tier(2, 20);
     let blocks = args.by_tier(6u32, 10);
     if let Some(r) = read_replay(args) {
         let seed = r.get("seed").and_then(|v| v.as_u64()).unwrap_or(args.seed);
